@@ -2,6 +2,9 @@
 #pragma once
 #include "nmtools/array/ndarray.hpp"
 #include "nmtools/constants.hpp"
+#ifdef C02_HOOKS
+#define NMC_POST_CASE      // C02 re-runs this harness with the NMTOOLS_VERIF hooks installed: see nmc_post_case below
+#endif
 #include "nmc.hpp"
 #include "nmc_enum.hpp"
 #include "nmc_ref.hpp"
@@ -53,3 +56,22 @@ inline std::string same(const Obs& a, const Obs& b, const char* what) {
     if (a.data != b.data) return std::string(what) + ": elements differ: " + a.str() + " vs " + b.str();
     return "";
 }
+
+#ifdef C02_HOOKS
+// C02 ("element access never leaves the operands' storage") re-runs the single-view harnesses of C03/C04/C05/C06/C08 with the
+// BOUNDS hook installed: a case's verdict becomes "an index was used outside its extent" (kind hook); the harness's own verdict
+// (wrong value, Nothing ...) belongs to its own property and is dropped here.  CAPACITY events are not judged in these units (refused
+// requests on bounded containers are legitimate inside the library's own fallbacks); the pipeline units of C02 judge them.
+#include "nmtools/verif.hpp"
+namespace c02 {
+inline long g_bad = 0, g_seen = 0; inline char g_msg[200] = {0};
+inline void bounds_sink(int site, long long i, long long n) { g_seen++; if (i < 0 || i >= n) { if (!g_bad) snprintf(g_msg, sizeof g_msg, "index %lld used on an axis / buffer of extent %lld (hook site %d)", i, n, site); g_bad++; } }
+inline int g_installed = (nmtools::verif::on_bounds = bounds_sink, 1);
+}
+void nmc_post_case(const nmc::Case&, nmc::Outcome& r) {
+    nmc::count("bounds_events_checked", c02::g_seen); nmc::count("transitions", 1); nmc::count("traces_validated", 1);
+    if (c02::g_bad) { std::string why = std::string(c02::g_msg) + " (" + std::to_string(c02::g_bad) + " such event(s) in this case)"; r = Outcome::bad("hook", why, true, r.outcome); }
+    else r.fail.clear();
+    c02::g_bad = 0; c02::g_seen = 0;
+}
+#endif
